@@ -148,6 +148,144 @@ def r(self, body, size):
         yield chunk
         chunk = body.read(size)
 """, None),
+    ("N11 fires: prologue decorator with (*args, **kwargs) on a method", """
+import functools
+
+def _guard(fn):
+    @functools.wraps(fn)
+    def wrapper(*args, **kwargs):
+        check()
+        return fn(*args, **kwargs)
+    return wrapper
+
+class A:
+    @_guard
+    def run(self, x):
+        return x + 1
+""", """
+import functools
+
+class A:
+
+    def _undecorated_run(self, x):
+        return x + 1
+
+    def run(self, x):
+        check()
+        return self._undecorated_run(x)
+"""),
+    ("N11 fires: factory with a constant argument, a prologue local, prefix + generic wrapper signature", """
+from functools import wraps
+
+def _named(name):
+    message = "in %s" % name
+
+    def decorator(call):
+        @wraps(call)
+        def guarded(self, scope, *args, **kwargs):
+            if scope is None:
+                raise RuntimeError(message)
+            return call(self, scope, *args, **kwargs)
+        return guarded
+    return decorator
+
+class R:
+    @_named("Router")
+    def __call__(self, scope, receive):
+        return receive
+""", """
+from functools import wraps
+
+class R:
+
+    def _undecorated_call(self, scope, receive):
+        return receive
+
+    def __call__(self, scope, receive):
+        if scope is None:
+            raise RuntimeError('in Router')
+        return self._undecorated_call(scope, receive)
+"""),
+    ("N11 not when the wrapper keeps state between calls (nonlocal)", """
+import functools
+
+def _once(fn):
+    done = False
+    @functools.wraps(fn)
+    def wrapper(*args, **kwargs):
+        nonlocal done
+        done = True
+        return fn(*args, **kwargs)
+    return wrapper
+
+@_once
+def f(x):
+    return x
+""", None),
+    ("N11 not when the wrapper hands the function on as a value", """
+import functools
+
+def _later(fn):
+    @functools.wraps(fn)
+    def wrapper(*args, **kwargs):
+        return submit(fn, *args, **kwargs)
+    return wrapper
+
+@_later
+def f(x):
+    return x
+""", None),
+    ("N11 not with two decorators", """
+import functools
+
+def _guard(fn):
+    @functools.wraps(fn)
+    def wrapper(*args, **kwargs):
+        check()
+        return fn(*args, **kwargs)
+    return wrapper
+
+@other
+@_guard
+def f(x):
+    return x
+""", None),
+    ("N12 fires: a parameterless local contextmanager used by one with", """
+import contextlib
+
+def f(self):
+    @contextlib.contextmanager
+    def closing_it():
+        try:
+            yield
+        finally:
+            self.close()
+    with closing_it():
+        work()
+""", """
+import contextlib
+
+def f(self):
+    try:
+        work()
+    finally:
+        self.close()
+"""),
+    ("N12 not when the contextmanager is used twice", """
+import contextlib
+
+def f(self):
+    @contextlib.contextmanager
+    def closing_it():
+        try:
+            yield
+        finally:
+            self.close()
+    with closing_it():
+        work()
+    with closing_it():
+        more()
+""", None),
 ]
 
 # Normal forms that need the call resolver (sa/loader.py, N8-N10): checked on a one-module scratch package.
